@@ -435,6 +435,11 @@ class Ctx:
             for n, g in enumerate(goal):
                 self.oblige("%s.%d" % (oid, n), g, kind, lineno, note)
             return
+        for exc, okind, slug in getattr(self, "may_raise", ()):
+            if kind == "safety" and (":" + okind) in oid and slug in oid.split("@")[-1]:
+                # partial correctness: this statement may raise `exc` instead; nothing is assumed about it either
+                self.ghost.setdefault("may_raise", set()).add("%s -> %s" % (oid.split(":", 1)[-1], exc))
+                return
         if isinstance(goal, Forall):
             ks = [self.fresh_int("sk") for _ in range(goal.nvars)]
             g = goal.instantiate(*ks)
